@@ -500,6 +500,9 @@ def run(pid, spec, unit, binp, tier, seed, workdir, overlay, scale):
         refp = os.path.join(workdir, "c%d-ref" % conf["k"])
         _, base = args_for(1, False)
         rc, out = mpirun(binp, 1, base + ["--out", refp, "--sched-seed", "0"], env, 600)
+        if rc != 0 and not ("FATAL ERROR" in out or "ABORT" in out or "Sanitizer" in out or "terminate called" in out):
+            # the launcher failed or the process was killed from outside (loaded machine): try once more before giving up
+            rc, out = mpirun(binp, 1, base + ["--out", refp, "--sched-seed", "0"], env, 900)
         ref, err = load_run(refp, 1) if rc == 0 else (None, "rc=%s %s" % (rc, out[-1500:]))
         if ref is None:
             if rc not in (0, None) and ("FATAL ERROR" in out or "ABORT" in out or "Sanitizer" in out or "terminate called" in out):
@@ -526,6 +529,11 @@ def run(pid, spec, unit, binp, tier, seed, workdir, overlay, scale):
                 res["cases"] += 1
                 sig = "|".join(tags)
                 rc, out = mpirun(binp, p, base + ["--out", pref, "--sched-seed", str(sched)], env, 900)
+                if rc not in (0, None) and not ("FATAL ERROR" in out or "ABORT" in out or "Sanitizer" in out or "terminate called" in out
+                                                or "partition" in out.lower()):
+                    # died without any FEAT / sanitizer report (launcher problem, killed from outside): once more
+                    res["counters"]["mpirun_retried_after_unexplained_exit"] = res["counters"].get("mpirun_retried_after_unexplained_exit", 0) + 1
+                    rc, out = mpirun(binp, p, base + ["--out", pref, "--sched-seed", str(sched)], env, 900)
                 j = Judge(tags, desc)
                 if rc is None:
                     res["incs"].append(dict(t="inc", family="dist", k=conf["k"], op="mpirun", why="watchdog expired: " + json.dumps(desc)))
